@@ -8,39 +8,87 @@ import z3
 PO, POK, VP, KWO, VK = range(5)
 
 
+_CTX = z3.main_ctx()
+_REF = _CTX.ref()
+_TRUE = z3.BoolVal(True)
+_FALSE = z3.BoolVal(False)
+
+
+def _b(x):
+    if x is True:
+        return _TRUE
+    if x is False:
+        return _FALSE
+    return x
+
+
+def _mk_nary(fn, xs):
+    n = len(xs)
+    arr = (z3.Ast * n)()
+    for i, x in enumerate(xs):
+        arr[i] = x.ast
+    return z3.BoolRef(fn(_REF, n, arr), _CTX)
+
+
 class Z3Ops:
+    """term constructors going straight to the z3 C API (the Python wrappers' coercions dominate otherwise)"""
     symbolic = True
-    true = z3.BoolVal(True)
-    false = z3.BoolVal(False)
+    true = _TRUE
+    false = _FALSE
 
     @staticmethod
     def And(*xs):
-        xs = [x for x in xs]
-        if not xs:
-            return z3.BoolVal(True)
-        return z3.And(*[Z3Ops.b(x) for x in xs])
+        ys = []
+        for x in xs:
+            if x is True:
+                continue
+            if x is False:
+                return _FALSE
+            ys.append(x)
+        if not ys:
+            return _TRUE
+        if len(ys) == 1:
+            return ys[0]
+        return _mk_nary(z3.Z3_mk_and, ys)
 
     @staticmethod
     def Or(*xs):
-        if not xs:
-            return z3.BoolVal(False)
-        return z3.Or(*[Z3Ops.b(x) for x in xs])
+        ys = []
+        for x in xs:
+            if x is False:
+                continue
+            if x is True:
+                return _TRUE
+            ys.append(x)
+        if not ys:
+            return _FALSE
+        if len(ys) == 1:
+            return ys[0]
+        return _mk_nary(z3.Z3_mk_or, ys)
+
+    _not_memo = {}
 
     @staticmethod
     def Not(x):
-        return z3.Not(Z3Ops.b(x))
+        if x is True:
+            return _FALSE
+        if x is False:
+            return _TRUE
+        return z3.BoolRef(z3.Z3_mk_not(_REF, x.ast), _CTX)
 
     @staticmethod
     def Implies(a, b):
-        return z3.Implies(Z3Ops.b(a), Z3Ops.b(b))
+        a, b = _b(a), _b(b)
+        return z3.BoolRef(z3.Z3_mk_implies(_REF, a.ast, b.ast), _CTX)
 
     @staticmethod
     def Iff(a, b):
-        return Z3Ops.b(a) == Z3Ops.b(b)
+        a, b = _b(a), _b(b)
+        return z3.BoolRef(z3.Z3_mk_eq(_REF, a.ast, b.ast), _CTX)
 
     @staticmethod
     def b(x):
-        return z3.BoolVal(x) if isinstance(x, bool) else x
+        return _b(x)
 
     @staticmethod
     def i(x):
@@ -54,12 +102,25 @@ class Z3Ops:
     def lt(a, b):
         return Z3Ops.i(a) < Z3Ops.i(b)
 
+    _eq_memo = {}
+
     @staticmethod
     def eq(a, b):
         if isinstance(a, str) or isinstance(b, str):
             # concrete string literal against a symbolic name: ASSUMPTION NAMES (never equal)
-            return z3.BoolVal(a == b) if isinstance(a, str) and isinstance(b, str) else z3.BoolVal(False)
-        return a == b
+            return _TRUE if (isinstance(a, str) and isinstance(b, str) and a == b) else _FALSE
+        if isinstance(a, int) or isinstance(b, int):
+            return Z3Ops.i(a) == Z3Ops.i(b)
+        k = (a.get_id(), b.get_id())
+        memo = Z3Ops._eq_memo
+        r = memo.get(k)
+        if r is None:
+            if len(memo) > 200000:
+                memo.clear()
+            r = _TRUE if k[0] == k[1] else z3.BoolRef(z3.Z3_mk_eq(_REF, a.ast, b.ast), _CTX)
+            memo[k] = r
+            memo[(k[1], k[0])] = r
+        return r
 
     @staticmethod
     def add(a, b):
@@ -171,7 +232,15 @@ class CallShape:
 
     def S(self, x):
         o = self.ops
-        return o.Or(*[o.And(b, o.eq(x, t)) for b, t in self.cands])
+        if not o.symbolic:
+            return o.Or(*[o.And(b, o.eq(x, t)) for b, t in self.cands])
+        memo = self.__dict__.setdefault('_s_memo', {})
+        k = x.get_id() if hasattr(x, 'get_id') else x
+        r = memo.get(k)
+        if r is None:
+            r = o.Or(*[o.And(b, o.eq(x, t)) for b, t in self.cands])
+            memo[k] = r
+        return r
 
     def any_kw(self):
         return self.ops.Or(*[b for b, _ in self.cands])
